@@ -24,7 +24,7 @@ func main() {
 	r.Assume("an operation that moves vertices may map two vertices to identical coordinates without defect: outputs with fewer distinct vertices than the vertex bijection implies are undecided, not violations")
 	r.Assume("area/volume preservation of EliminateCoplanar is judged only on inputs whose adjacent faces are, by the harness's own measurement, coplanar to 1e-11 rad or creased by more than 1e-2 rad; of 2D EliminateColinear only on integer coordinates where colinearity and the shoelace area are exact")
 	r.Assume("ARAP: rigid-motion reproduction is judged for translations (1e-6*size) on any weighting and for rotations up to 60 degrees (1e-3*size, 2000 iterations, retried with 20000) on cotangent weights of near-equilateral icospheres only; other weightings are counted; a non-finite result is judged only for single-component meshes without needle corners")
-	r.Assume("termination is restated as: every call returns within the per-case watchdog (120 s, re-run alone with 3x by the driver)")
+	r.Assume("termination is restated as bounded progress: iterative operations run on their own goroutine; a call that has not returned after 20 s is repeated alone with 60 s, and only if that does not return either the clause \"terminates\" is violated for the API, which is then not called again in the run (guard.go); everything else is under the per-case watchdog of the framework")
 	r.Assume("Mesh.Iterate order is arbitrary: all comparisons are order-insensitive, floating-point rules are compared with a tolerance of 1e-11..1e-8 of the coordinate scale and declined when two expected positions are closer than four tolerances")
 
 	// the 2D colinear section runs beside the others: a call that does not
